@@ -122,11 +122,20 @@ def injectors():
         "enum": "%s enum InjA { X }", "enumerator": "enum InjA { %s X }", "enumerator-field": "enum InjA { X(%s a: bool) }",
         "custom": "%s custom InjA", "alias": "%s typealias InjA = bool", "typeref": "struct InjA { a: %s bool }",
         "typeref-nested": "struct InjA { a: Sequence<%s bool> }",
+        # every other place a type can be written: all of them are type references
+        "typeref-base": "interface InjB {} interface InjA : %s InjB {}", "typeref-second-base": "interface InjB {} interface InjC {} interface InjA : InjB, %s InjC {}",
+        "typeref-underlying": "enum InjA : %s uint8 { X }", "typeref-alias-target": "typealias InjA = %s bool",
+        "typeref-parameter": "interface InjA { injop(a: %s bool) }", "typeref-return": "interface InjA { injop() -> %s bool }",
+        "typeref-return-member": "interface InjA { injop() -> (a: %s bool, b: bool) }", "typeref-enumerator-field": "enum InjA { X(a: %s bool) }",
+        "typeref-dict-key": "struct InjA { a: Dictionary<%s string, bool> }", "typeref-dict-value": "struct InjA { a: Dictionary<string, %s bool> }",
+        "typeref-result-ok": "struct InjA { a: Result<%s bool, string> }", "typeref-result-err": "struct InjA { a: Result<bool, %s string> }",
+        "typeref-named": "struct InjS {} struct InjA { a: %s InjS }", "typeref-stream": "interface InjA { injop(a: stream %s bool) }",
     }
+    typerefs = {x for x in places if x.startswith("typeref")}
     legal = {
-        "allow(All)": set(places) - {"typeref", "typeref-nested"},
-        "deprecated": set(places) - {"typeref", "typeref-nested", "parameter", "return-member"},
-        "deprecated(\"why\")": set(places) - {"typeref", "typeref-nested", "parameter", "return-member"},
+        "allow(All)": set(places) - typerefs,
+        "deprecated": set(places) - typerefs - {"parameter", "return-member"},
+        "deprecated(\"why\")": set(places) - typerefs - {"parameter", "return-member"},
         "compress(Args)": {"operation-void", "operation-ret"},
         "slicedFormat(Return)": {"operation-void", "operation-ret"},
         "oneway": {"operation-void"},
@@ -135,6 +144,8 @@ def injectors():
         for place, tmpl in places.items():
             if place not in ok:
                 add("attributes/legal-place/%s-on-%s" % (attr.split("(")[0], place), ["E023"], tmpl % ("[%s]" % attr))
+    for place in sorted(typerefs):
+        add("attributes/not-repeated/deprecated-on-" + place, ["E023", "E026"], places[place] % "[deprecated] [deprecated]")
     add("attributes/legal-place/allow-on-module", ["E023"], None)     # handled as a file-level case below
     add("attributes/well-formed/allow-no-args", ["E028"], "[allow] struct InjA {}")
     add("attributes/well-formed/allow-unknown", ["E027"], "[allow(Nope)] struct InjA {}")
@@ -169,6 +180,14 @@ def file_level_cases():
     yield "attributes/legal-place/deprecated-on-file", {"E023"}, ["[[deprecated]]\nmodule M\nstruct S {}\n"]
     yield "attributes/legal-place/oneway-on-file", {"E023"}, ["[[oneway]]\nmodule M\nstruct S {}\n"]
     yield "attributes/legal-place/compress-on-module", {"E023"}, ["[compress(Args)] module M\nstruct S {}\n"]
+    # file attributes of a file that holds no module are validated like any other
+    for i, attr in enumerate(["deprecated", "oneway", "compress(Args)", "slicedFormat(Args)", "deprecated(\"x\")"]):
+        for body in ("", "// nothing else\n", "#if NOPE\nmodule Hidden\n#endif\n"):
+            yield "attributes/legal-place/%s-on-module-less-file" % attr.split("(")[0], {"E023"}, ["[[%s]]\n%s" % (attr, body)]
+            yield "attributes/legal-place/%s-on-module-less-file-among-others" % attr.split("(")[0], {"E023"}, \
+                ["module M\nstruct S {}\n", "[[%s]]\n%s" % (attr, body), "module N\nstruct T { s: M::S }\n"]
+    yield "attributes/not-repeated/on-module-less-file", {"E023", "E026"}, ["[[deprecated]]\n[[deprecated]]\n"]
+    yield "ok/module-less-file-with-legal-attributes", set(), ["[[allow(All)]]\n[[x::y]]\n[[x::y(1)]]\n".replace("(1)", "(a)")]
     yield "unique-names/across-files", {"E010"}, ["module M\nstruct S {}\n", "module M\nstruct S {}\n"]
     yield "unique-names/across-files-kinds", {"E010"}, ["module M::N\ncustom S\n", "module M::N\ninterface S {}\n"]
     yield "inherited-operation/across-files", {"E011"}, ["module M\ninterface A : N::B { op() }\n", "module N\ninterface B { op() }\n"]
